@@ -248,6 +248,27 @@ def _gibbs(ctx, rbm, nv, nh, na, cond_h, cond_v, cond_a):
                         same = [[st._obj(src)[b, i].const_value() for i in range(nv)] for b in range(B)] == snap
                         ctx.holds("gibbs_steps/a chain continued from an earlier result with overwrite=False leaves that result untouched" + tag,
                                   same and out2 is not src and not (isinstance(out2, st.SymTensor) and isinstance(src, st.SymTensor) and out2._stor is src._stor))
+    # a single chain given as a 1-D state (also for one visible unit): the result has the start state's shape
+    for k in (1, 2):
+        for overwrite in (False, True):
+            def hook1(probs):
+                return np.array([[rnd.randint(0, 1) for _ in range(probs.shape[-1])] for _ in range(int(np.prod(probs.shape[:-1])) or 1)],
+                                dtype=float).reshape(probs.shape)
+            st.reset_logs()
+            st.BERNOULLI_HOOK[0] = hook1
+            s1 = _c(starts[-1])
+            keep1 = s1.clone()
+            try:
+                out1 = rbm.gibbs_steps(k, s1, overwrite=overwrite)
+            finally:
+                st.BERNOULLI_HOOK[0] = None
+            tag = "[k=%d overwrite=%s]" % (k, overwrite)
+            r1 = st._obj(out1)
+            ctx.holds("gibbs_steps/1-D start state: the result has shape (num_visible,)" + tag, tuple(r1.shape) == (nv,), "shape %s" % (tuple(r1.shape),))
+            ctx.holds("gibbs_steps/1-D start state: entries are 0/1" + tag,
+                      all(x.is_const() and x.const_value() in (0, 1) for x in r1.reshape(-1)))
+            if not overwrite:
+                ctx.holds("gibbs_steps/1-D start state: overwrite=False leaves it untouched" + tag, not isinstance(s1, st.SymTensor) and torch.equal(s1, keep1))
     ctx.frame("gibbs_steps/parameters-not-written")
 
 
